@@ -165,6 +165,27 @@ def lts_single_step(kinds, maxlen, maxparam, bats=("u", "b"), include_bad=True, 
     return cases
 
 
+def lts_param_then_diff(kinds, maxlen, maxparam, bats=("u", "b")):
+    """head/tail/skip with a dynamic parameter: a parameter change (polled, so that whatever it emits - or
+    nothing - has been handed out), then one applicable source diff, from every (vector, parameter) state:
+    what a parameter change leaves behind in the adapter (a cached length, room, position) is used by
+    the next source diff"""
+    cases = []
+    apps = ((7,), (7, 8, 9))
+    for kind in kinds:
+        for bat in bats:
+            for l in canon_vecs(maxlen):
+                n = len(l)
+                ds = [d for d in diffs_for(n, newvals=(7,), appends=apps, slack=0) if ok_in(d, n)]
+                for p in range(maxparam + 1):
+                    for q in range(maxparam + 1):
+                        if q == p:
+                            continue
+                        for d in ds:
+                            cases.append("%s dyninit %s %d %s :: l:%d ; D ; d:%s ; D" % (kind, bat, p, vec(l), q, d))
+    return cases
+
+
 def filter_single_step(maxlen, bats=("u", "b")):
     """filter/filter_map: every pass/fail assignment of the vector's items (mask bits 0..maxlen-1);
     new items 6 (passes: bit 6 set) / 7 (fails)."""
@@ -226,6 +247,33 @@ def filter_two_step(maxlen, bats=("u", "b")):
                     for d1 in _filter_diffs(n):
                         for d2 in _filter_diffs(len_after(d1, n)):
                             cases.append("%s - %s %d %s :: d:%s ; D ; d:%s ; D" % (kind, bat, mask, vec(l), d1, d2))
+    return cases
+
+
+def filter_multi_step(steps=4):
+    """filter / filter_map: every sequence of `steps` operations over a small alphabet that works at the
+    ENDS of the source (pop / push a passing or a rejected item at either end, set / remove / insert at the
+    last position) from an all-passing and a mixed source: defects of a cached quantity (a length, a
+    prefix count, a position) that is maintained on several paths and goes stale on one need the stale
+    path AND two or three further steps before the value is used"""
+    cases = []
+    # mask 85 = bits 0,2,4,6: values with an even residue mod 8 pass; 8 passes, 9 is rejected
+    for kind in ("filter", "filter_map"):
+        for bat, src in (("u", [2, 4, 6]), ("b", [2, 3, 4])):
+            def ops(n):
+                o = ["PushBack(8)", "PushBack(9)", "PushFront(8)", "PushFront(9)"]
+                if n > 0:
+                    o += ["PopBack", "PopFront", "Set(%d,8)" % (n - 1), "Set(%d,9)" % (n - 1), "Remove(%d)" % (n - 1),
+                          "Insert(%d,8)" % (n - 1)]
+                return o
+
+            def rec(prefix, n, k):
+                if k == 0:
+                    cases.append("%s - %s 85 %s :: %s ; D" % (kind, bat, vec(src), " ; ".join("d:" + x for x in prefix)))
+                    return
+                for o in ops(n):
+                    rec(prefix + [o], len_after(o, n), k - 1)
+            rec([], len(src), steps)
     return cases
 
 
